@@ -83,7 +83,7 @@ Accept(ev) ==
        \/ FaultOk(ev, post)
 
 PropOf(ev) == IF "fault" \in DOMAIN ev /\ ev.fault = 1 THEN <<"C19">> ELSE <<"C05">>
-Rej(ev, what) == [line |-> l, i |-> ev.i, k |-> 0, what |-> what, props |-> PropOf(ev), kf |-> "none"]
+Rej(ev, what) == [line |-> l, i |-> ev.i, k |-> 0, what |-> what, cls |-> ev.e, props |-> PropOf(ev), kf |-> "none"]
 
 OpNames == {"construct", "constructfill", "copyconstruct", "moveconstruct", "copyassign", "moveassign",
             "allocate", "allocatefill", "clear", "destroy"}
